@@ -1189,6 +1189,28 @@ func ruleC16Generator(w *World, r *Report) {
 							}
 						}
 					}
+					// or: S[i] = key; i++ (slots of a slice made with len(map), filled in iteration order)
+					if !okBody && len(rs.Body.List) == 2 && rs.Value == nil {
+						as, ok1 := rs.Body.List[0].(*ast.AssignStmt)
+						key, okK := rs.Key.(*ast.Ident)
+						if ok1 && okK && as.Tok == token.ASSIGN && len(as.Lhs) == 1 && len(as.Rhs) == 1 && exprText(w.Fset, as.Rhs[0]) == key.Name {
+							if ix, ok := as.Lhs[0].(*ast.IndexExpr); ok {
+								if ctr, ok := ix.Index.(*ast.Ident); ok {
+									stepped := false
+									switch st := rs.Body.List[1].(type) {
+									case *ast.IncDecStmt:
+										stepped = st.Tok == token.INC && exprText(w.Fset, st.X) == ctr.Name
+									case *ast.AssignStmt:
+										stepped = st.Tok == token.ADD_ASSIGN && len(st.Lhs) == 1 && exprText(w.Fset, st.Lhs[0]) == ctr.Name && exprText(w.Fset, st.Rhs[0]) == "1"
+									}
+									if _, isSlice := p.TypesInfo.TypeOf(ix.X).Underlying().(*types.Slice); isSlice && stepped {
+										slice = exprText(w.Fset, ix.X)
+										okBody = true
+									}
+								}
+							}
+						}
+					}
 					if !r.check(okBody, "R16.9", fname, "range over map "+exprText(w.Fset, rs.X)+" only collects keys", w.Pos(rs.Pos()), "body is keys = append(keys, k)", "the generator iterates a map and uses the elements in iteration order: Go randomises map order, so the generated file differs from run to run") {
 						return true
 					}
